@@ -271,3 +271,32 @@ pub fn generate(rng: &mut Rng, thorough: bool) -> Case {
     }
     Case { threads }
 }
+
+/// Small programs for the Miri tier (interpretation is ~1000x slower):
+/// 2-3 threads, at most 10 operations each, and only zones whose TZif data
+/// is small (synthetic files, `utc`, `pacific-honolulu`).
+pub fn generate_small(rng: &mut Rng) -> Case {
+    let mut case = generate(rng, false);
+    case.threads.truncate(3);
+    if case.threads.len() < 2 {
+        let extra = generate(rng, false);
+        case.threads.extend(extra.threads.into_iter().take(1));
+    }
+    let n = case.threads.len() as u8;
+    for t in case.threads.iter_mut() {
+        t.truncate(10);
+        for op in t.iter_mut() {
+            match op {
+                Op::New { spec, .. } => {
+                    if let Spec::TzifReal(i) = spec {
+                        // 8: pacific-honolulu, 10: utc
+                        *i = if *i % 2 == 0 { 8 } else { 10 };
+                    }
+                }
+                Op::Send { to, .. } => *to %= n,
+                _ => {}
+            }
+        }
+    }
+    case
+}
